@@ -145,7 +145,13 @@ def generate(rng, tier):
     if rng.random() < 0.2:
         case["alias"] = rng.sample([0, 1, 2], 2)
     if rng.random() < 0.3:
-        case["scatter_size"] = rng.choice(["array_mm", "array_cm", "qty"])
+        case["scatter_size"] = rng.choice(["array_mm", "array_mm", "array_cm", "qty"])
+        # the overlay is only applied when the map is drawn: such histories draw (and thicken) more of their maps with an overlay
+        for c in calls:
+            if c["fn"] == "map" and not c.get("fail") and rng.random() < 0.6:
+                c["plot"], c["thick"] = True, rng.random() < 0.7
+                if c.get("scatter_at") is None:
+                    c["scatter_at"] = rng.choice([0, 1, 2])
     if rng.random() < 0.02:
         case["big"] = {"n": rng.choice([120000, 300000]), "res": rng.choice([4, 16]), "op": rng.choice(["sum", "mean"]), "seed": rng.getrandbits(30)}
     return case
